@@ -8,6 +8,7 @@
 #pragma once
 
 #include <pika/config.hpp>
+#include <pika/config/verif_hooks.hpp>
 #include <pika/affinity/affinity_data.hpp>
 #include <pika/assert.hpp>
 #include <pika/functional/function.hpp>
@@ -335,6 +336,7 @@ namespace pika::threads::detail {
                         thread_queue_type* q = queues_[idx];
                         if (q->get_next_thread(thrd, running))
                         {
+                            PIKA_VERIF_POINT(::pika::verif::sched_steal, ::pika::threads::detail::get_thread_id_data(thrd), num_thread, 0);
                             q->increment_num_stolen_from_pending();
                             queues_[num_thread]->increment_num_stolen_to_pending();
                             return true;
@@ -365,6 +367,7 @@ namespace pika::threads::detail {
                         thread_queue_type* q = queues_[idx];
                         if (q->get_next_thread(thrd, running))
                         {
+                            PIKA_VERIF_POINT(::pika::verif::sched_steal, ::pika::threads::detail::get_thread_id_data(thrd), num_thread, 0);
                             q->increment_num_stolen_from_pending();
                             queues_[num_thread]->increment_num_stolen_to_pending();
                             return true;
@@ -385,6 +388,7 @@ namespace pika::threads::detail {
                     thread_queue_type* q = queues_[idx];
                     if (q->get_next_thread(thrd, running))
                     {
+                        PIKA_VERIF_POINT(::pika::verif::sched_steal, ::pika::threads::detail::get_thread_id_data(thrd), num_thread, 0);
                         q->increment_num_stolen_from_pending();
                         queues_[num_thread]->increment_num_stolen_to_pending();
                         return true;
